@@ -1500,6 +1500,73 @@ def run_representations(level):
     return n, failures, counters
 
 
+def run_chain_locality(max_len):
+    """C14 through the Python front end: symbol i depends only on model i and on one chunk of the data"""
+    failures, n = [], 0
+    counters = {"py_locality_data_strings": 0, "py_locality_model_replacements": 0, "py_locality_bit_flips": 0, "py_locality_out_of_data": 0}
+    def fail(what, detail):
+        if len([f for f in failures if f["what"] == what]) < 3:
+            failures.append({"what": what, "detail": detail})
+    base = [M.Categorical(np.array(t), perfect=False) for t in ([0.1, 0.7, 0.1, 0.1], [0.2, 0.2, 0.1, 0.5], [0.2, 0.1, 0.4, 0.3], [0.25, 0.25, 0.25, 0.25], [0.4, 0.3, 0.2, 0.1])]
+    alts = [M.Categorical(np.array([0.09, 0.71, 0.1, 0.1]), perfect=False), M.QuantizedGaussian(0, 3, 1.2, 0.9), M.Uniform(4)]
+    K = len(base)
+    def decode_all(w, models):
+        """(symbols decoded one per call, index at which the coder ran out of data or None)"""
+        c = CHAIN(w, False, True)
+        out = []
+        for i, m in enumerate(models):
+            try:
+                out.append(int(c.decode(m)))
+            except AssertionError:
+                return out, i
+        return out, None
+    with Quiet():
+        # (24 bits per symbol + two words for the heads: 7 words hold all 5 positions, shorter strings run out of data)
+        alphabet = [0x12345678, 0xffffffff, 0, 0x80000001][:max_len]
+        strings = list(word_strings(7, 7, alphabet)) + list(word_strings(3, 4, alphabet[:3]))
+        for w in strings:
+            counters["py_locality_data_strings"] += 1
+            try:
+                ref, stop = decode_all(w, base)
+            except BaseException as e:
+                fail("Python front end | ChainCoder locality | decoding raises something else than running out of data", f"words {[hex(int(x)) for x in w]}: {type(e).__name__}: {str(e)[:100]}")
+                continue
+            if stop is not None:
+                counters["py_locality_out_of_data"] += 1
+            else:
+                counters["py_locality_complete_decodings"] = counters.get("py_locality_complete_decodings", 0) + 1
+            # the three call forms agree
+            try:
+                c = CHAIN(w, False, True)
+                fam = M.Categorical(perfect=False)
+                rows = np.array([[0.1, 0.7, 0.1, 0.1], [0.2, 0.2, 0.1, 0.5], [0.2, 0.1, 0.4, 0.3], [0.25, 0.25, 0.25, 0.25], [0.4, 0.3, 0.2, 0.1]])
+                k = len(ref)
+                if k:
+                    got = [int(x) for x in c.decode(fam, rows[:k])]
+                    if got != ref:
+                        fail("Python front end | ChainCoder.decode(family, parameter arrays) | differs from decoding one symbol per call with the same models", f"words {[hex(int(x)) for x in w]}: {got} vs {ref}")
+            except BaseException as e:
+                fail("Python front end | ChainCoder.decode(family, parameter arrays) | raises where one symbol per call works", f"words {[hex(int(x)) for x in w]}: {type(e).__name__}: {str(e)[:100]}")
+            for j in range(K):
+                for a in alts:
+                    n += 1; counters["py_locality_model_replacements"] += 1
+                    ms = list(base); ms[j] = a
+                    got, stop2 = decode_all(w, ms)
+                    if stop2 != stop:
+                        fail("Python front end | ChainCoder locality | replacing one model changes when the coder runs out of data", f"words {[hex(int(x)) for x in w]}, position {j}: {stop} -> {stop2}")
+                    elif any(got[i] != ref[i] for i in range(len(ref)) if i != j):
+                        fail("Python front end | ChainCoder locality | replacing the model of one position changes another position", f"words {[hex(int(x)) for x in w]}, position {j}: {ref} -> {got}")
+            for b in range(32 * len(w)):
+                n += 1; counters["py_locality_bit_flips"] += 1
+                w2 = w.copy(); w2[b // 32] ^= np.uint32(1 << (b % 32))
+                got, stop2 = decode_all(w2, base)
+                if stop2 != stop:
+                    fail("Python front end | ChainCoder locality | flipping one bit of the data changes when the coder runs out of data", f"words {[hex(int(x)) for x in w]}, bit {b}: {stop} -> {stop2}")
+                elif sum(1 for x, y in zip(got, ref) if x != y) > 1:
+                    fail("Python front end | ChainCoder locality | flipping one bit of the data changes more than one position", f"words {[hex(int(x)) for x in w]}, bit {b}: {ref} -> {got}")
+    return n, failures, counters
+
+
 def main():
     cmd = sys.argv[1]
     if cmd == "vectors":
@@ -1531,6 +1598,8 @@ def main():
         n, f, c = run_misuse(int(sys.argv[2]))
     elif cmd == "representations":
         n, f, c = run_representations(int(sys.argv[2]))
+    elif cmd == "chain_locality":
+        n, f, c = run_chain_locality(int(sys.argv[2]))
     elif cmd == "seek":
         n, f, c = run_seek(int(sys.argv[2]))
     elif cmd == "impossible":
